@@ -151,6 +151,15 @@ type nonceCache struct {
 	mu  sync.Mutex
 	now func() time.Time
 	m   map[string]time.Time
+	// keep is the widest tolerance the cache has been used with. Entries are
+	// kept that long, so that a reload which narrows the tolerance and a later
+	// one which widens it again cannot bring back a request whose entry would
+	// otherwise have been dropped in between.
+	keep time.Duration
+	// floor bounds what keep can vouch for: when the tolerance grows beyond
+	// keep, entries signed before now-keep may already be gone, so signed
+	// timestamps before floor are refused instead of being taken for new.
+	floor time.Time
 }
 
 func newNonceCache(now func() time.Time) *nonceCache {
@@ -185,14 +194,26 @@ func (c *nonceCache) seenOnce(nonce string, signedAt time.Time, tolerance time.D
 	c.mu.Lock()
 	defer c.mu.Unlock()
 
-	// Opportunistic cleanup.
 	now := c.now().UTC()
+	if tolerance > c.keep {
+		if c.keep > 0 {
+			if f := now.Add(-c.keep); f.After(c.floor) {
+				c.floor = f
+			}
+		}
+		c.keep = tolerance
+	}
+
+	// Opportunistic cleanup.
 	for k, at := range c.m {
-		if now.After(at.Add(tolerance)) {
+		if now.After(at.Add(c.keep)) {
 			delete(c.m, k)
 		}
 	}
 
+	if signedAt.Before(c.floor) {
+		return false
+	}
 	if at, ok := c.m[nonce]; ok && !now.After(at.Add(tolerance)) {
 		return false
 	}
